@@ -629,8 +629,11 @@ func (e *Exec) havocAll(st *State) {
 		k string
 		t Term
 	}
-	var mono []kv
+	var mono, stable []kv
 	for k, t := range st.heap {
+		if e.eng.specs.StableNonNil[k] {
+			stable = append(stable, kv{k, t})
+		}
 		if strings.HasPrefix(k, "ghost:") {
 			if g := e.eng.specs.Ghosts[strings.TrimPrefix(k, "ghost:")]; g != nil && g.Monotone {
 				mono = append(mono, kv{k, t})
@@ -683,6 +686,11 @@ func (e *Exec) havocAll(st *State) {
 	for _, m := range mono {
 		nw := e.cur(st, m.k, elemSort(m.t.Sort), false)
 		e.monotoneLinkFrom(st, m.k, m.t, nw)
+	}
+	// a field declared "stable nonnil" is never reset to nil by anyone
+	for _, m := range stable {
+		nw := e.cur(st, m.k, elemSort(m.t.Sort), false)
+		st.assert(Term{fmt.Sprintf("(forall ((x Int)) (! (=> (not (= (select %s x) 0)) (not (= (select %s x) 0))) :pattern ((select %s x))))", m.t.S, nw.S, nw.S), SBool})
 	}
 }
 
